@@ -134,3 +134,20 @@ pub assume_specification<T> [ std::iter::empty::<T> ] () -> (r: std::iter::Empty
         vstd::std_specs::iter::IteratorSpec::remaining(&r) == Seq::<T>::empty(),
         vstd::std_specs::iter::IteratorSpec::obeys_prophetic_iter_laws(&r),
         vstd::std_specs::iter::IteratorSpec::decrease(&r) is Some;
+
+// ---------------- str operations used by FromStr ----------------
+/// `s.starts_with(pat)`; given meaning for `&str` patterns by axiom_starts_with_str (trusted.rs)
+pub uninterp spec fn pat_prefix<P>(s: &str, p: P) -> bool;
+pub assume_specification<P: core::str::pattern::Pattern> [ str::starts_with::<P> ] (s: &str, pat: P) -> (r: bool)
+    ensures r == pat_prefix(s, pat);
+/// `s.get(range)`; given meaning for `RangeFrom<usize>` by axiom_str_get_from (trusted.rs)
+pub uninterp spec fn str_get_rel<I: core::slice::SliceIndex<str>>(s: &str, i: I, r: Option<&I::Output>) -> bool;
+pub assume_specification<I: core::slice::SliceIndex<str>> [ str::get::<I> ] (s: &str, i: I) -> (r: Option<&I::Output>)
+    ensures str_get_rel(s, i, r);
+pub assume_specification<T, A: core::alloc::Allocator> [ <Vec<T, A> as AsRef<[T]>>::as_ref ] (v: &Vec<T, A>) -> (r: &[T])
+    ensures r@ == v@;
+/// N13 shim for `s.len()` on a `&str`: the length in bytes
+#[verifier::external_body]
+pub fn vp_str_len(s: &str) -> (r: usize)
+    ensures r == utf8(s@).len(),
+{ s.len() }
